@@ -1,0 +1,77 @@
+//go:build verif && amd64 && go1.17 && !go1.27
+// +build verif,amd64,go1.17,!go1.27
+
+// Package verifx is built only with the `verif` tag. It gives the verification
+// harness under /verif direct access to both SIMD variants of the native
+// routines (and to a few internal types) so that they can be compared in one
+// process. It is not part of the public API.
+package verifx
+
+import (
+	"unsafe"
+
+	"github.com/bytedance/sonic/internal/native"
+	"github.com/bytedance/sonic/internal/native/avx2"
+	"github.com/bytedance/sonic/internal/native/sse"
+	"github.com/bytedance/sonic/internal/native/types"
+)
+
+type (
+	StateMachine = types.StateMachine
+	JsonState    = types.JsonState
+	ValueType    = types.ValueType
+	ParsingError = types.ParsingError
+)
+
+const MaxRecurse = types.MAX_RECURSE
+
+// Funcs is the table of raw native entry points of one SIMD variant.
+type Funcs struct {
+	Name             string
+	F32toa           func(out unsafe.Pointer, val float32) (ret int)
+	F64toa           func(out unsafe.Pointer, val float64) (ret int)
+	GetByPath        func(s unsafe.Pointer, p unsafe.Pointer, path unsafe.Pointer, m unsafe.Pointer) (ret int)
+	HTMLEscape       func(sp unsafe.Pointer, nb int, dp unsafe.Pointer, dn unsafe.Pointer) (ret int)
+	I64toa           func(out unsafe.Pointer, val int64) (ret int)
+	Lspace           func(sp unsafe.Pointer, nb int, off int) (ret int)
+	Quote            func(sp unsafe.Pointer, nb int, dp unsafe.Pointer, dn unsafe.Pointer, flags uint64) (ret int)
+	SkipArray        func(s unsafe.Pointer, p unsafe.Pointer, m unsafe.Pointer, flags uint64) (ret int)
+	SkipNumber       func(s unsafe.Pointer, p unsafe.Pointer) (ret int)
+	SkipObject       func(s unsafe.Pointer, p unsafe.Pointer, m unsafe.Pointer, flags uint64) (ret int)
+	SkipOne          func(s unsafe.Pointer, p unsafe.Pointer, m unsafe.Pointer, flags uint64) (ret int)
+	SkipOneFast      func(s unsafe.Pointer, p unsafe.Pointer) (ret int)
+	U64toa           func(out unsafe.Pointer, val uint64) (ret int)
+	Unquote          func(sp unsafe.Pointer, nb int, dp unsafe.Pointer, ep unsafe.Pointer, flags uint64) (ret int)
+	ValidateOne      func(s unsafe.Pointer, p unsafe.Pointer, m unsafe.Pointer, flags uint64) (ret int)
+	ValidateUTF8     func(s unsafe.Pointer, p unsafe.Pointer, m unsafe.Pointer) (ret int)
+	ValidateUTF8Fast func(s unsafe.Pointer) (ret int)
+	Value            func(s unsafe.Pointer, n int, p int, v unsafe.Pointer, flags uint64) (ret int)
+	Vnumber          func(s unsafe.Pointer, p unsafe.Pointer, v unsafe.Pointer)
+	Vsigned          func(s unsafe.Pointer, p unsafe.Pointer, v unsafe.Pointer)
+	Vstring          func(s unsafe.Pointer, p unsafe.Pointer, v unsafe.Pointer, flags uint64)
+	Vunsigned        func(s unsafe.Pointer, p unsafe.Pointer, v unsafe.Pointer)
+}
+
+// AVX2 and SSE are filled at init; both variants are loaded whatever the CPU dispatch chose.
+var AVX2, SSE Funcs
+
+func init() {
+	_ = native.MaxFrameSize // force the dispatcher's init to run first
+	if avx2.F_quote == nil {
+		avx2.Use()
+	}
+	if sse.F_quote == nil {
+		sse.Use()
+	}
+	AVX2 = Funcs{"avx2", avx2.F_f32toa, avx2.F_f64toa, avx2.F_get_by_path, avx2.F_html_escape, avx2.F_i64toa, avx2.F_lspace,
+		avx2.F_quote, avx2.F_skip_array, avx2.F_skip_number, avx2.F_skip_object, avx2.F_skip_one, avx2.F_skip_one_fast, avx2.F_u64toa,
+		avx2.F_unquote, avx2.F_validate_one, avx2.F_validate_utf8, avx2.F_validate_utf8_fast, avx2.F_value, avx2.F_vnumber,
+		avx2.F_vsigned, avx2.F_vstring, avx2.F_vunsigned}
+	SSE = Funcs{"sse", sse.F_f32toa, sse.F_f64toa, sse.F_get_by_path, sse.F_html_escape, sse.F_i64toa, sse.F_lspace,
+		sse.F_quote, sse.F_skip_array, sse.F_skip_number, sse.F_skip_object, sse.F_skip_one, sse.F_skip_one_fast, sse.F_u64toa,
+		sse.F_unquote, sse.F_validate_one, sse.F_validate_utf8, sse.F_validate_utf8_fast, sse.F_value, sse.F_vnumber,
+		sse.F_vsigned, sse.F_vstring, sse.F_vunsigned}
+}
+
+// NewStateMachine returns a fresh (zeroed) state machine, not taken from the pool.
+func NewStateMachine() *StateMachine { return &StateMachine{} }
